@@ -40,6 +40,8 @@ def inSubset (p : List Char) : Bool := !(p.any fun c => c = '[' || c = '\\')
 /-- no character with a meaning to the modelled fnmatch -/
 def literal (p : List Char) : Prop := ∀ c ∈ p, c ≠ '*' ∧ c ≠ '?'
 
+instance (p : List Char) : Decidable (literal p) := by unfold literal; exact inferInstance
+
 /-- `WellMatcher`: the `NameOrder` (distinct names in insertion order) and, when the matcher was
 built with one, the `WListManager` lists (`std::map`: sorted by name; names carry their `*`) -/
 structure Matcher where
